@@ -176,9 +176,30 @@ func unwatch(o *jp.ApplyOptions) { evByOp.Delete(o) }
 
 // ApplyV5 runs DecodePatch + ApplyIndentWithOptions of the real library under
 // the panic monitor, with hook events recorded.
+// reuseOpts, when non-nil, is the one *ApplyOptions value that ApplyV5 passes to every call
+// (its exported fields are set from the case's options before each call): an options value may
+// be reused for any number of calls, whatever happened in the earlier ones.
+var reuseOpts *jp.ApplyOptions
+
+// reuseFrozen: the caller set the reused value once (to reuseSettings) and never touches it
+// again; calls with other settings get a value of their own.
+var (
+	reuseFrozen   bool
+	reuseSettings V5Opts
+)
+
 func ApplyV5(doc, patch string, o V5Opts, indent string) ApplyResult {
 	var res ApplyResult
 	lo := o.Lib()
+	if reuseOpts != nil && reuseFrozen {
+		if o == reuseSettings {
+			lo = reuseOpts
+		}
+	} else if reuseOpts != nil {
+		reuseOpts.SupportNegativeIndices, reuseOpts.AllowMissingPathOnRemove, reuseOpts.EnsurePathExistsOnAdd = lo.SupportNegativeIndices, lo.AllowMissingPathOnRemove, lo.EnsurePathExistsOnAdd
+		reuseOpts.EscapeHTML, reuseOpts.AccumulatedCopySizeLimit = lo.EscapeHTML, lo.AccumulatedCopySizeLimit
+		lo = reuseOpts
+	}
 	res.Events = watch(lo)
 	defer unwatch(lo)
 	var dec jp.Patch
